@@ -4,9 +4,9 @@
    dictionaries, character classes and regular-expression texts come from Gen.TokenTables / Gen.Elements, regenerated
    from the source on every run. *)
 From Coq Require Import ZArith List String Ascii Bool.
-From Model Require Import PyBase Graph Valence Tokenize Parser Reader SmilesAst SmilesGraph SmilesText Recheck.
+From Model Require Import PyBase Graph Valence Tokenize Parser Reader SmilesAst SmilesGraph SmilesOrder SmilesText Recheck.
 From Gen Require Import TokenTables.
-From Proofs Require Import TokenizeProofs ParserProofs ReaderProofs ReaderExt ReaderExt2 DenoteProofs GraphProofs TextProofs RecheckProofs.
+From Proofs Require Import TokenizeProofs ParserProofs ReaderProofs ReaderExt ReaderExt2 DenoteProofs GraphProofs OrderProofs TextProofs RecheckProofs.
 Import ListNotations.
 Open Scope Z_scope.
 
@@ -375,3 +375,23 @@ Theorem C03_read_spell_text_example :
   exists m, read true false (spell_text t) = Ok (RMol m).
 Proof. exact read_spell_text_example. Qed.
 Print Assumptions C03_read_spell_text_example.
+
+(* ---- the neighbour-order table, machine-free: Model.SmilesOrder reads it off the tree (parent, one place per ring digit holding
+   the digit's partner - `opener` if it closes, else the atom of the next occurrence `closer` -, bonded children; keys in order of
+   first mention); the parser's record on the spelling of a well-formed tree has exactly this table *)
+Theorem C03_denote_order_correct : forall strong t p, wf2 t = true -> denote strong t = Ok p -> p_order p = denote_order t.
+Proof. exact denote_order_correct. Qed.
+Print Assumptions C03_denote_order_correct.
+
+Theorem C03_read_spell_order : forall strong t p, wf2 t = true -> parse (spell t) strong = Ok p -> p_order p = denote_order t.
+Proof. exact read_spell_order. Qed.
+Print Assumptions C03_read_spell_order.
+
+Theorem C03_denote_order_example :
+  let C := simple_atom "C" in
+  let t := Node 0 C [(None, 1)] [(Some (1, PInt 2), Node 0 (simple_atom "O") [] []);
+                                 (None, Node 8 C [(None, 1); (None, 2)] [(Some (4, PNone), Node 0 C [(None, 2)] [])])] in
+  wf2 t = true /\ denote_order t = [(0, [Some 2; Some 1; Some 2]); (1, [Some 0]); (2, [Some 0; Some 0; Some 3]); (3, [Some 2])] /\
+  exists p, parse (spell t) true = Ok p /\ p_order p = denote_order t.
+Proof. exact denote_order_example. Qed.
+Print Assumptions C03_denote_order_example.
